@@ -21,7 +21,9 @@ Inductive cmd :=
 | CSub (body : list cmd)
 | CTrack (n : Z) | CChannel (n : Z) | CVoice (n : Z)
 | CKeyFlag (sharp : bool) (letters : list Z)     (* KF+(fc) / KF-(b): the named letters get +1 / -1, all others 0 *)
-| CKeyShift (k : Z) | CTrackKey (k : Z).
+| CKeyShift (k : Z) | CTrackKey (k : Z)
+(* octave-once marks in front of a lettered note: back-quote (k = 1) raises, double quote (k = -1) lowers the octave FOR THIS NOTE ONLY *)
+| COnce (marks : list Z) (base acc : Z) (natural : bool) (len : olen) (gate vel timing oct : option Z).
 
 (* ---- printer: commands separated by one blank, numbers as decimal literals ---- *)
 Fixpoint digits_of (fuel : nat) (n : Z) (acc : list Z) : list Z :=
@@ -68,6 +70,9 @@ Fixpoint pcmd (c : cmd) : list Z :=
   | CKeyFlag sharp letters => [75; 70] ++ (if sharp then [43] else [45]) ++ [40] ++ map letter_char letters ++ [41]
   | CKeyShift k => [75; 101; 121; 83; 104; 105; 102; 116; 40] ++ pnum k ++ [41]
   | CTrackKey k => [84; 114; 97; 99; 107; 75; 101; 121; 40] ++ pnum k ++ [41]
+  | COnce marks base acc natural len gate vel timing oct =>
+      map (fun k => if k >? 0 then 96 else 34) marks
+      ++ [letter_char base] ++ pacc acc ++ (if natural then [42] else []) ++ plen len ++ pparams [gate; vel; timing; oct]
   end.
 Fixpoint pprog (l : list cmd) : list Z :=
   match l with [] => [] | x :: r => pcmd x ++ [32] ++ pprog r end.
@@ -86,6 +91,8 @@ Definition tstate_new (timebase : Z) (trackno : Z) : tstate :=
 Record perf := mkP { p_tracks : list tstate; p_cur : nat; p_tb : Z; p_keyflag : list Z; p_keyshift : Z; p_oct_once : Z }.
 Definition perf0 : perf := mkP [tstate_new 96 0] 0 96 [0;0;0;0;0;0;0;0;0;0;0;0] 0 0.
 Definition vAdd : Z := 8.
+(* the octave a note sounds in after octave-once marks: every mark moves one octave, staying within 0..10 *)
+Definition once_oct (marks : list Z) (o : Z) : Z := fold_left (fun o k => clampz 0 10 (o + k)) marks o.
 
 Definition cur (p : perf) : tstate := nth (p_cur p) (p_tracks p) (tstate_new 0 0).
 Fixpoint upd {A} (n : nat) (f : A -> A) (l : list A) : list A :=
@@ -131,6 +138,7 @@ Fixpoint count_cmd (c : cmd) : Z :=
   | CNoteN _ l _ _ _ => 1 + hats l
   | CRest l => 1 + hats l
   | CTuplet _ l => 1 + hats l
+  | COnce _ _ _ _ l _ _ _ _ => 1 + hats l
   | CChord its _ _ _ => sum its
   | CLoop _ body brk => sum body + match brk with Some b => sum b | None => 0 end
   | _ => 0
@@ -205,6 +213,14 @@ Fixpoint sem (fuel : nat) (c : cmd) (p : perf) : perf :=
         mkP (p_tracks p) (p_cur p) (p_tb p) kf (p_keyshift p) (p_oct_once p)
     | CKeyShift k => mkP (p_tracks p) (p_cur p) (p_tb p) (p_keyflag p) k (p_oct_once p)
     | CTrackKey k => with_cur p (fun t => mkT (t_pos t) (t_ch t) (t_len t) (t_oct t) (t_vel t) (t_gate t) (t_timing t) k (t_notes t))
+    | COnce marks base acc natural len gate vel timing oct =>
+        (* the note sounds as written, in the octave the marks lead to; afterwards the octave is what it was before them *)
+        let o0 := t_oct (cur p) in
+        let p1 := with_cur p (fun t => set_oct t (once_oct marks o0)) in
+        let t := cur p1 in
+        with_cur (play p1 (key_of p1 base acc natural oct) (len_of p1 len (t_len t))
+                       (opt_or gate (t_gate t)) (opt_or vel (t_vel t)) (opt_or timing (t_timing t)))
+                 (fun t => set_oct t o0)
     end
   end.
 
